@@ -17,7 +17,7 @@ import fieldutil as F
 import implutil as U
 
 STATIC = ["Model/Esc.vo"]
-EXTRA_PROPS = ["RK", "C03b"]
+EXTRA_PROPS = ["RK", "C03b", "C03c"]
 IMPORTS = "From SSP Require Import Model.Pk Model.Bins Model.Esc."
 
 
@@ -91,7 +91,7 @@ def run(chk):
             t = F.random_time(rng, car)
             y = F.random_state(rng, car)
             car._stellar_ev = rng.random() < 0.5
-            rate = rng.choice([0.0, 0.0, -7.5, -120.0])
+            rate = rng.choice([0.0, 0.0, -7.5, -120.0, -0.1, -0.05, -1e-3, -1e-9])
             if rng.random() < 0.4:
                 car.esc_rate = (lambda r: (lambda tt: r))(rate)
                 car._time_dep_esc = True
@@ -123,17 +123,17 @@ def run(chk):
     emf, *_ = U.mods()
     for sev in (True, False):
         for nrm in (["N"] if chk.tier == "quick" else ["N", "M"]):
-            rate = -12.0
+          for rate, N0 in ((-12.0, 5e5), (-0.06, 5e4), (-0.1, 2e4)):       # weak rates are rates too
             tout = [2000.0, 6000.0, 10000.0]
-            m = emf.EvolvedMF.from_powerlaw([0.1, 0.5, 1.0, 100], [-0.5, -1.3, -2.5], [3, 3, 10], -1.0, tout, rate, N0=5e5,
+            m = emf.EvolvedMF.from_powerlaw([0.1, 0.5, 1.0, 100], [-0.5, -1.3, -2.5], [3, 3, 10], -1.0, tout, rate, N0=N0,
                                             NS_ret=1.0, BH_ret_int=1.0, BH_ret_dyn=1.0, stellar_evolution=sev, esc_norm=nrm)
             if nrm == "N" and m.converged:
                 tot = m.Ns.sum(axis=1) + np.c_[m.Nr].sum(axis=1)
-                want = 5e5 + rate * np.array(tout)
+                want = N0 + rate * np.array(tout)
                 chk.count("complete runs with escape")
-                if np.any(np.abs(tot - want) > 1e-6 * 5e5):
+                if np.any(np.abs(tot - want) > 1e-6 * N0 + 1e-3 * abs(rate) * np.array(tout)):
                     chk.fail("integrated over time N(t) = N0 + integral of the rate when all remnants are retained",
-                             dict(stellar_evolution=sev, norm=nrm, rate=rate, tout=tout), dict(N=tot.tolist(), expected=want.tolist()))
+                             dict(stellar_evolution=sev, norm=nrm, rate=rate, N0=N0, tout=tout), dict(N=tot.tolist(), expected=want.tolist()))
     chk.trusted += ["harness/props/C03.py, fieldutil.py", "numpy pairwise summation vs left-to-right sums (tolerance 1e-8)",
                     "scipy.integrate.quad as oracle for the 1-sqrt(m/md) weighted integrals", "FloatFun pow/ln/sqrt"]
 
